@@ -15,7 +15,7 @@ import (
 func init() {
 	register("C06", &propDef{
 		Title: "Source addresses print to strings that parse back to the same address",
-		Rules: []func(*Checker){ruleC06Ctor, ruleC06Sanitiser, ruleC06URLPath, ruleC06SubRaw, ruleC06FinalPattern, ruleC06Host, ruleC06CanonURL, aliasRuleFiltered(ruleC07Query, "C07.query", "C06.query", 1, func(o Oblig) bool { return strings.Contains(o.Key, "archive value normalised") }), ruleC06Manifest, ruleC06Print, ruleAddrErrors("C06.errors"), ruleNameAgreement("C06.names", "sourceaddrs"), ruleURLFields("C06.urlfields"), ruleLiteralAgreement("C06.fields", "sourceaddrs", nil), ruleC06QueryCut, ruleURLHostUntouched("C06.host")},
+		Rules: []func(*Checker){ruleC06Ctor, ruleC06Sanitiser, ruleC06URLPath, ruleC06SubRaw, ruleC06FinalPattern, ruleC06Host, ruleC06CanonURL, aliasRuleFiltered(ruleC07Query, "C07.query", "C06.query", 1, func(o Oblig) bool { return strings.Contains(o.Key, "archive value normalised") }), ruleC06Manifest, ruleC06Print, ruleAddrErrors("C06.errors"), ruleNameAgreement("C06.names", "sourceaddrs"), ruleURLFields("C06.urlfields"), ruleLiteralAgreement("C06.fields", "sourceaddrs", nil), ruleC06QueryCut, ruleURLHostUntouched("C06.host"), ruleAllFieldsPrinted("C06.allfields")},
 		NotDecided: []string{
 			"the round trip itself: URL escaping, fragments, case folding, registry-address normalisation are facts about string contents",
 			"idempotence of printing for every accepted spelling",
@@ -455,6 +455,63 @@ func ruleC06Manifest(c *Checker) {
 }
 
 // ruleC06Print: printing uses the same separators the parsers split on.
+// ruleAllFieldsPrinted — an address value has no field its printed form leaves out.
+func ruleAllFieldsPrinted(id string) func(*Checker) {
+	return func(c *Checker) {
+		c.rule(id, "Every field of the address structs (LocalSource, RemoteSource, RemotePackage, RegistrySource, RegistrySourceFinal), however many there are, is read on the way from the type's String method: the values are compared with == and used as map keys, so a field that the printer never looks at (how the address was spelled, where it came from, a cached form) makes two addresses that print the same unequal, and an address unequal to what its own printed form parses to.", 5)
+		p := c.P
+		for _, tn := range []string{"LocalSource", "RemoteSource", "RemotePackage", "RegistrySource", "RegistrySourceFinal"} {
+			nt := p.NamedType(addrPkg, tn)
+			fn := p.Fn(addrPkg, tn+".String")
+			if nt == nil || fn == nil {
+				c.anchorMissing(id, tn+" and its String method")
+				continue
+			}
+			st, ok := nt.Underlying().(*types.Struct)
+			if !ok {
+				c.anchorMissing(id, tn+" as a struct")
+				continue
+			}
+			read := map[*types.Var]bool{}
+			for g := range p.reach(fn) {
+				if !p.InModule(g) {
+					continue
+				}
+				eachInstr(g, func(in ssa.Instruction) {
+					switch x := in.(type) {
+					case *ssa.Field:
+						if f := fieldOf(x); f != nil {
+							read[f] = true
+						}
+					case *ssa.FieldAddr:
+						// a load (or a call on the address), not a store into it
+						if f := fieldOf(x); f != nil {
+							if refs := x.Referrers(); refs != nil {
+								for _, r := range *refs {
+									if stt, isSt := r.(*ssa.Store); isSt && stt.Addr == ssa.Value(x) {
+										continue
+									}
+									if _, dbg := r.(*ssa.DebugRef); dbg {
+										continue
+									}
+									read[f] = true
+								}
+							}
+						}
+					}
+				})
+			}
+			var missing []string
+			for i := 0; i < st.NumFields(); i++ {
+				if f := st.Field(i); !read[f] {
+					missing = append(missing, f.Name())
+				}
+			}
+			c.check(len(missing) == 0, id, tn, "every field reaches the printed form", p.Pos(fn.Pos()), fmt.Sprintf("all %d field(s) are read from String", st.NumFields()), "String never reads "+strings.Join(missing, ", ")+": two "+tn+" values that differ only there print the same and are unequal; a parsed address can differ from what its own String parses to")
+		}
+	}
+}
+
 func ruleC06Print(c *Checker) {
 	const R = "C06.print"
 	c.rule(R, "Every String() of an address type returns, on each path, a value that depends on all identifying fields of the receiver (package, sub-path when non-empty, version for final registry sources); the sub-path is attached with the \"//\" separator the splitter looks for and the version with \"@\".", 4)
